@@ -39,7 +39,6 @@ structure Inv (s : State) : Prop where
   pure_coro : ∀ l, s.pure l = true → s.isCb l = false
   dead_chain : s.handles = 0 → s.chain = []
   dead_cur : s.handles = 0 → s.cur = none
-  rel_val : ∀ l, l ∈ s.rel → s.handles ≠ 0 → ∃ v, deref s = some v
   sub_le : ∀ l, l < s.next → s.subAt l ≤ s.emitted.length
   once : ∀ l, l < s.next → s.isCb l = false →
     (s.got l).length + (if l ∈ s.rel then 1 else 0) = (s.expect l).length
@@ -49,7 +48,7 @@ structure Inv (s : State) : Prop where
   rel_conn : ∀ l, l ∈ s.rel → s.conn l = true
 
 theorem inv_init : Inv init := by
-  constructor <;> simp [init, deref]
+  constructor <;> simp [init]
 
 
 
@@ -58,7 +57,7 @@ macro "inv_old" h:ident : tactic => `(tactic| first
   | exact Inv.chain_nodup $h | exact Inv.rel_nodup $h | exact Inv.gated_nodup $h | exact Inv.chain_lt $h
   | exact Inv.rel_lt $h | exact Inv.gated_lt $h | exact Inv.disj_cr $h | exact Inv.disj_cg $h | exact Inv.disj_rg $h
   | exact Inv.rel_coro $h | exact Inv.gated_coro $h | exact Inv.gated_impure $h | exact Inv.pure_coro $h
-  | exact Inv.dead_chain $h | exact Inv.dead_cur $h | exact Inv.rel_val $h | exact Inv.sub_le $h | exact Inv.once $h
+  | exact Inv.dead_chain $h | exact Inv.dead_cur $h | exact Inv.sub_le $h | exact Inv.once $h
   | exact Inv.cb $h | exact Inv.cb0 $h | exact Inv.chain_conn $h | exact Inv.rel_conn $h)
 
 theorem inv_cancelNow {s : State} (h : Inv s) {l : Nat} (hr : l ∉ s.rel) (hk : s.isCb l = false) :
@@ -335,7 +334,6 @@ theorem inv_add {s : State} (h : Inv s) : Inv (stepAdd s).1 := by
     constructor <;> (try dsimp only) <;> (try inv_old h)
     case dead_chain => intro hh; omega
     case dead_cur => intro hh; omega
-    case rel_val => intro l hl _; exact h.rel_val l hl h0
     case cb =>
       intro c hc hk hcn
       have := h.cb c hc hk hcn
@@ -408,7 +406,6 @@ theorem inv_resumed {s : State} (h : Inv s) {l : Nat} (hl : l ∈ s.rel) (o : Ou
   case disj_cr => intro l' hl' hm; exact h.disj_cr _ hl' ((hme l').mp hm).2
   case disj_rg => intro l' hl'; exact h.disj_rg _ ((hme l').mp hl').2
   case rel_coro => intro l' hl'; exact h.rel_coro _ ((hme l').mp hl').2
-  case rel_val => intro l' hl' hh; exact h.rel_val _ ((hme l').mp hl').2 hh
   case once =>
     intro l' hl' hk'
     have := h.once l' hl' hk'
@@ -436,6 +433,8 @@ theorem inv_resume {s : State} (h : Inv s) (l : Nat) : Inv (stepResume s l).1 :=
   · rw [if_pos hl]
     have hme : ∀ l', l' ∈ s.rel.erase l ↔ l' ≠ l ∧ l' ∈ s.rel := fun l' => List.Nodup.mem_erase_iff h.rel_nodup
     split
+    · exact inv_afterValue (inv_resumed h hl _) (h.rel_lt _ hl) (fun hc => h.disj_cr _ hc hl)
+        (fun hh => ((hme l).mp hh).1 rfl) (h.disj_rg _ hl) (h.rel_coro _ hl)
     · exact inv_afterValue (inv_resumed h hl _) (h.rel_lt _ hl) (fun hc => h.disj_cr _ hc hl)
         (fun hh => ((hme l).mp hh).1 rfl) (h.disj_rg _ hl) (h.rel_coro _ hl)
     · exact inv_resumed h hl _
@@ -540,7 +539,6 @@ theorem inv_drop {s : State} (h : Inv s) : Inv (stepDrop s).1 := by
         · exact e.2
       case dead_chain => intro _; rfl
       case dead_cur => intro _; rfl
-      case rel_val => intro l _ hh; exact absurd rfl hh
       case once =>
         intro l hl hk
         have hn : l ∉ cbsOf s := fun hh => by have := (mem_cbsOf.mp hh).2; simp [hk] at this
@@ -575,7 +573,6 @@ theorem inv_drop {s : State} (h : Inv s) : Inv (stepDrop s).1 := by
       constructor <;> (try dsimp only) <;> (try inv_old h)
       case dead_chain => intro hh; omega
       case dead_cur => intro hh; omega
-      case rel_val => intro l hl _; exact h.rel_val l hl h0
       case cb =>
         intro c hc hk hcn
         have := h.cb c hc hk hcn
@@ -624,7 +621,6 @@ theorem inv_emit {s : State} (h : Inv s) (byRef : Bool) (v : Nat) : Inv (stepEmi
       · exact e.2
     case dead_chain => intro hh; exact absurd hh h0
     case dead_cur => intro hh; exact absurd hh h0
-    case rel_val => intro l _ _; exact ⟨v, deref_emit s byRef v⟩
     case sub_le => intro l hl; have := h.sub_le l hl; simp; omega
     case once =>
       intro l hl hk
@@ -671,6 +667,14 @@ theorem inv_emit {s : State} (h : Inv s) (byRef : Bool) (v : Nat) : Inv (stepEmi
       · exact h.rel_conn _ e
       · exact h.chain_conn _ e.1
 
+/-- a failed by-value collector call touches `_value_storage` only: every clause of the invariant is about other fields -/
+theorem inv_emitFail {s : State} (h : Inv s) : Inv (stepEmitFail s).1 := by
+  unfold stepEmitFail
+  by_cases h0 : s.handles = 0
+  · rw [if_pos h0]; exact h
+  · rw [if_neg h0]
+    constructor <;> (try dsimp only) <;> (try inv_old h)
+
 theorem inv_step {s : State} (h : Inv s) (op : Op) : Inv (step s op).1 := by
   cases op with
   | listen sc => exact inv_listen h sc
@@ -680,6 +684,7 @@ theorem inv_step {s : State} (h : Inv s) (op : Op) : Inv (step s op).1 := by
   | connect0 n => exact inv_connect0 h n
   | assign l b => exact inv_assign h l b
   | emit r v => exact inv_emit h r v
+  | emitFail => exact inv_emitFail h
   | resume l => exact inv_resume h l
   | wake l => exact inv_wake h l
   | addHandle => exact inv_add h
@@ -989,14 +994,27 @@ theorem finv_resume {s : State} (hi : Inv s) (h : FInv s) (l : Nat) : FInv (step
       refine finv_afterValue (fex_resumed hi h.ex hl hv) (fun hh => ((hme l).mp hh).1 rfl) h0 (hi.rel_conn _ hl) ?_
       intro l' hl' e
       exact present_resumed_other hi e _ (h.present l' hl')
-    next hnv =>
+    next hv =>
+      have h0 : s.handles ≠ 0 := by
+        intro h0; simp [readNow, h0] at hv
+      refine finv_afterValue (fex_resumed hi h.ex hl hv) (fun hh => ((hme l).mp hh).1 rfl) h0 (hi.rel_conn _ hl) ?_
+      intro l' hl' e
+      exact present_resumed_other hi e _ (h.present l' hl')
+    next hnv _ =>
       refine ⟨fex_resumed hi h.ex hl rfl, ?_⟩
       intro l' hl'
       by_cases e : l' = l
       · subst e
-        intro _ h0
-        obtain ⟨v, hv⟩ := hi.rel_val _ hl h0
-        exact absurd (show readNow s = Out.val v by simp [readNow, h0, hv]) (hnv v)
+        intro hp h0
+        -- a purely re-awaiting listener of a connected signal is owed values only, and the last thing it is owed is what it reads now
+        have hex := h.ex.exact l' (hi.rel_lt _ hl) (hi.pure_coro _ hp)
+        have hform := h.ex.form l' (hi.rel_lt _ hl) hp
+        rw [if_pos hl] at hex
+        rw [if_neg h0, List.append_nil] at hform
+        have hm : readNow s ∈ (s.emitted.drop (s.subAt l')).map Out.val := by
+          rw [← hform, hex]; simp
+        obtain ⟨v, _, hv⟩ := List.mem_map.mp hm
+        exact absurd hv.symm (hnv v)
       · exact present_resumed_other hi e _ (h.present l' hl')
   · rw [if_neg hl]; exact h
 
@@ -1075,6 +1093,18 @@ theorem finv_drop {s : State} (h : FInv s) (hrel : s.handles = 1 → s.rel = [])
       · intro l hl hp hh; exact absurd rfl hh
     · rw [if_neg h1]; exact finv_handles h h0 (by omega)
 
+/-- a failed by-value collector call with nothing unflushed: nobody is about to read, nothing else changed -/
+theorem finv_emitFail {s : State} (h : FInv s) (hrel : s.rel = []) : FInv (stepEmitFail s).1 := by
+  unfold stepEmitFail
+  by_cases h0 : s.handles = 0
+  · rw [if_pos h0]; exact h
+  · rw [if_neg h0]
+    refine ⟨⟨?_, h.ex.form⟩, h.present⟩
+    intro l hl hk
+    have := h.ex.exact l hl hk
+    simp only [hrel, List.not_mem_nil, if_false] at this ⊢
+    exact this
+
 theorem finv_step {s : State} (hi : Inv s) (h : FInv s) (op : Op) (hf : needsFlush s op = true → s.rel = []) :
     FInv (step s op).1 := by
   cases op with
@@ -1085,6 +1115,7 @@ theorem finv_step {s : State} (hi : Inv s) (h : FInv s) (op : Op) (hf : needsFlu
   | connect0 n => exact finv_connect0 hi h n
   | assign l b => exact finv_assign h l b
   | emit r v => exact finv_emit hi h (hf rfl) r v
+  | emitFail => exact finv_emitFail h (hf rfl)
   | resume l => exact finv_resume hi h l
   | wake l => exact finv_wake hi h l
   | addHandle => exact finv_add h
@@ -1100,6 +1131,103 @@ instance decFlushed : (s : State) → (ops : List Op) → Decidable (Flushed s o
   | s, op :: ops =>
     have := decFlushed (step s op).1 ops
     (inferInstance : Decidable ((needsFlush s op = true → s.rel = []) ∧ Flushed (step s op).1 ops))
+
+/-! ### `expect` never contains a destroyed value (every history) -/
+
+/-- nothing a coroutine listener is owed is a destroyed value: `expect` only ever receives values and cancellations -/
+def ExpLive (s : State) : Prop := ∀ l, Out.dead ∉ s.expect l
+
+theorem explive_init : ExpLive init := by intro l; simp [init]
+
+theorem explive_of_eq {s t : State} (h : ExpLive s) (e : t.expect = s.expect) : ExpLive t := by
+  intro l; rw [e]; exact h l
+
+theorem explive_cancelNow {s : State} (h : ExpLive s) (l : Nat) : ExpLive (cancelNow s l) := by
+  intro l'
+  have := h l'
+  by_cases e : l' = l
+  · subst e; simp [cancelNow, this]
+  · simp [cancelNow, upd_other _ _ e, this]
+
+theorem explive_reawait {s : State} (h : ExpLive s) (l : Nat) : ExpLive (reawait s l) := by
+  unfold reawait
+  split
+  · exact explive_cancelNow h l
+  · exact h
+
+theorem explive_await {s : State} (h : ExpLive s) (l : Nat) : ExpLive (await s l) := by
+  unfold await
+  split
+  · exact explive_reawait h l
+  · exact explive_cancelNow h l
+
+theorem explive_fresh {s : State} (h : ExpLive s) (cb : Bool) (sc : List Act) (n : Nat) (pr cn : Bool) :
+    ExpLive (fresh s cb sc n pr cn) := by
+  intro l'
+  have := h l'
+  by_cases e : l' = s.next
+  · subst e; simp [fresh]
+  · simp [fresh, upd_other _ _ e, this]
+
+theorem explive_afterValue {s : State} (h : ExpLive s) (l : Nat) : ExpLive (afterValue s l) := by
+  unfold afterValue
+  split
+  · exact explive_await h l
+  · apply explive_await; exact explive_of_eq h rfl
+  · exact h
+  · exact h
+
+theorem explive_step {s : State} (h : ExpLive s) (op : Op) : ExpLive (step s op).1 := by
+  cases op with
+  | listen sc => exact explive_reawait (explive_fresh h _ _ _ _ _) _
+  | listen0 sc => exact explive_cancelNow (explive_fresh h _ _ _ _ _) _
+  | connect n =>
+      simp only [step, stepConnect]; split
+      · exact h
+      · exact explive_of_eq (explive_fresh h true [] n false true) rfl
+  | connectL n =>
+      simp only [step, stepConnect]; split
+      · exact h
+      · exact explive_of_eq (explive_fresh h true [] n false true) rfl
+  | connect0 n => exact explive_of_eq (explive_fresh h true [] n false false) rfl
+  | assign l b =>
+      simp only [step, stepAssign]; split
+      · exact explive_of_eq h rfl
+      · exact h
+  | emit r v =>
+      simp only [step, stepEmit]; split
+      · exact h
+      · intro l; have := h l; dsimp only; split <;> simp [this]
+  | emitFail =>
+      simp only [step, stepEmitFail]; split
+      · exact h
+      · exact explive_of_eq h rfl
+  | resume l =>
+      simp only [step, stepResume]; split
+      · split
+        · dsimp only; apply explive_afterValue; exact explive_of_eq h rfl
+        · dsimp only; apply explive_afterValue; exact explive_of_eq h rfl
+        · exact explive_of_eq h rfl
+      · exact h
+  | wake l =>
+      simp only [step, stepWake]; split
+      · dsimp only; apply explive_await; exact explive_of_eq h rfl
+      · exact h
+  | addHandle =>
+      simp only [step, stepAdd]; split
+      · exact h
+      · exact explive_of_eq h rfl
+  | dropHandle =>
+      simp only [step, stepDrop]; split
+      · exact h
+      · split
+        · intro l; have := h l; dsimp only; split <;> simp [this]
+        · exact explive_of_eq h rfl
+
+theorem explive_run (s : State) (ops : List Op) (h : ExpLive s) : ExpLive (run s ops) := by
+  induction ops generalizing s with
+  | nil => exact h
+  | cons op ops ih => exact ih _ (explive_step h op)
 
 /-! ### The closed forms of `stepEmit` / `stepDrop` are the loops of the code -/
 
